@@ -1,30 +1,35 @@
 #!/usr/bin/env python3
-"""tools/seedtest.py <seeded/ID> [check ids...]  — apply a seeded regression to /repo, run the given
-checks (default: the property recorded in meta.json), undo it, and record which checks raised an alarm
-in seeded/ID/result.json.  Never leaves /repo modified."""
-import sys, os, json, subprocess, time
+"""tools/seedtest.py <seeded/ID> [check ids...] — run checks against a seeded regression WITHOUT touching /repo:
+the patch is applied in a scratch worktree of /repo's HEAD, the checks run with VERIF_REPO pointing there and
+evidence redirected to a scratch directory; which checks raised an alarm is recorded in seeded/ID/result.json."""
+import sys, os, json, subprocess, time, shutil
 ROOT = os.path.dirname(os.path.dirname(os.path.abspath(__file__)))
 d = os.path.abspath(sys.argv[1])
 meta = json.load(open(os.path.join(d, "meta.json")))
 checks = sys.argv[2:] or [meta["property"]]
-patch = os.path.join(d, "patch.diff")
-def git(*a):
-    return subprocess.run(["git", "-C", "/repo"] + list(a), stdout=subprocess.PIPE, stderr=subprocess.STDOUT, text=True)
-assert git("status", "--porcelain").stdout.strip() == "", "/repo not clean"
-r = git("apply", patch)
-assert r.returncode == 0, r.stdout
+sid = os.path.basename(d)
+wt = "/tmp/seedwt-%s" % sid
+evd = "/tmp/seedev-%s" % sid
+def sh(cmd):
+    return subprocess.run(cmd, shell=True, stdout=subprocess.PIPE, stderr=subprocess.STDOUT, text=True)
+sh("git -C /repo worktree remove --force %s; git -C /repo worktree prune" % wt)
+r = sh("git -C /repo worktree add --detach %s HEAD" % wt); assert r.returncode == 0, r.stdout
+r = sh("git -C %s apply %s" % (wt, os.path.join(d, "patch.diff"))); assert r.returncode == 0, r.stdout
 res = {}
 try:
     for c in checks:
         t0 = time.time()
-        p = subprocess.run([os.path.join(ROOT, "check"), c], cwd=ROOT, stdout=subprocess.PIPE, stderr=subprocess.STDOUT, text=True)
+        env = dict(os.environ, VERIF_REPO=wt, VERIF_EVIDENCE_DIR=evd)
+        p = subprocess.run([os.path.join(ROOT, "check"), c], cwd=ROOT, env=env, stdout=subprocess.PIPE, stderr=subprocess.STDOUT, text=True)
         lines = [l for l in p.stdout.splitlines() if l.startswith(("VIOLATION", "OK ", "KNOWN", "  "))]
         res[c] = {"exit": p.returncode, "out": lines[:4], "wall_s": round(time.time() - t0, 1)}
-        print(c, p.returncode, "|".join(lines[:3])[:300])
+        print(sid, c, p.returncode, " | ".join(lines[:3])[:400], flush=True)
 finally:
-    git("apply", "-R", patch)
-    st = git("status", "--porcelain").stdout.strip()
-    if st:
-        git("checkout", "--", ".")
-        print("WARNING: forced checkout, leftover:", st)
-json.dump({"ran": checks, "results": res, "at": time.strftime("%Y-%m-%d %H:%M:%S")}, open(os.path.join(d, "result.json"), "w"), indent=1)
+    sh("git -C /repo worktree remove --force %s; git -C /repo worktree prune" % wt)
+    shutil.rmtree(evd, ignore_errors=True)
+old = {}
+rp = os.path.join(d, "result.json")
+if os.path.exists(rp):
+    old = json.load(open(rp)).get("results", {})
+old.update(res)
+json.dump({"results": old, "at": time.strftime("%Y-%m-%d %H:%M:%S")}, open(rp, "w"), indent=1)
